@@ -15,7 +15,8 @@ EXPLANATION = (
     'key that is inserted and precedes the insertion; (C06.2) stack discipline: every insertion is paired with a '
     'removal on every exit path (try/finally immediately after the insertion), so diamonds, repeated references '
     'and evaluations after a failed one cannot hit the guard; (C06.3) exception re-wrapping along the recursion is '
-    'additive: the caught message is embedded with str(), never with repr()/!r, whose escaping doubles per level.')
+    'additive: the caught message is embedded with str(), never with repr()/!r, whose escaping doubles per level.'
+    ' (C06.1/C06.2) are decided on witness models with the recursion interpreted as written (self reference and 3-cycle reported on re-entry, diamond / repeated reference evaluate, evaluator unchanged after a failed and after a successful evaluation) - whatever the spelling of the guard (inline, helper, context manager); (C06.3) covers every function an exception travels through (evaluator, nodes, validate_args, thunks); (C06.4) a reference node resolves its address against the current context.')
 NOT_DECIDED = 'wall-clock promptness, memory limits'
 TRUSTED = ['identity-flow model of the recursion Evaluator.evaluate -> ASTNode.eval -> context.eval_cell -> evaluate']
 
